@@ -27,7 +27,7 @@ from .h18_members import (FIXED_TENSOR_ITEMS, FLOAT_ITEMS, OTHER_ITEMS, SEQ_ITEM
 
 LEVEL = "exploration"
 RULE = ("four case families. 'pipe': a harness sequence dataset (fixed shapes), a mode of 1..4 distinct items (tensors "
-        "of several ranks/dtypes, 0-dim tensor, int, str, index, ctx.<key>), return_ctx, B in 1..8 sample indices "
+        "of several ranks/dtypes, 0-dim tensor, python int / float / bool, numpy float64 / int16 scalars, str, index, ctx.<key>), return_ctx, B in 1..8 sample indices "
         "(random order, optional repeats), a member order of length 1..4 over {before, after, none (collates itself), "
         "none-raw (per-sample member that returns the samples uncollated)} (all 156 driven orders are enumerated first, "
         "then sampled: 2/3 served orders none-raw* (before+ | after before* | none), 1/3 any), builder in {direct KDSingleCollator "
@@ -60,7 +60,7 @@ ASSUMPTIONS = [
     "length, order, dtype, shape and content are exact",
     "per-sample ctx entries are ints, floats, strings and fixed-shape tensors with identical key sets across the batch "
     "(what default collation can batch); ctx values of ragged shape are not driven",
-    "items are tensors, ints, strings; items that are themselves tuples/dicts are not driven for the padding collator",
+    "items are tensors, python ints / floats (incl. values float32 cannot represent) / bools, numpy scalars, strings; items that are themselves tuples/dicts are not driven for the padding collator",
     "KDSingleCollatorWrapper is held to the same contract as KDComposeCollator with one member",
     "a padding collator instance is stateless across batches: every result it returned stays correct while later "
     "batches go through the same instance (results are kept, as a prefetching DataLoader keeps them, and verified at the end)",
@@ -602,9 +602,10 @@ def _pad_verify(run, desc, key, mode_items, sctx, raw, ctxs, res):
                     return
         else:
             run.count("pad_other_fields_checked")
+            run.cover("pad-other-field", name, n == 1, sctx)
             want = default_collate(f)
-            if not eq(o, want):
-                run.violation(key("pad:other-field"), f"{desc}: field {name!r} is {describe(o)}, default collation gives {describe(want)}")
+            if not eq(o, want) or type(o) is not type(want):
+                run.violation(key("pad:other-field"), f"{desc}: field {name!r} (items {f[:4]!r}) is {describe(o)}, default collation of the same items gives {describe(want)} (dtype and container are part of the comparison)")
                 return
     if sctx:
         run.count("pad_ctx_checked")
